@@ -235,13 +235,19 @@ fn check_stream(cfg: &Cfg, st: &mut St, s: &Stream, n: usize) {
             let (o, ob) = proc_obs(n, bytes, sizes, Pattern::NONE);
             st.execs += 1;
             st.chunkings += 1;
-            if o.end != End::Returned {
+            // a split under which process panics (or never ends) although the same stream one byte
+            // per read is served: what was observed up to that point is compared like any other
+            // observation (the crash itself is C05's subject and is reported there)
+            let crashed = o.end != End::Returned;
+            if crashed {
                 st.crashed += 1;
-                return;
             }
             if ob != r {
                 let mut f = feats.clone();
                 f.push(("differs", differs(&ob, &r).into()));
+                if crashed {
+                    f.push(("this_split_ends_in_a_panic", "true".into()));
+                }
                 st.groups.add("chunking", &f, (bytes.len() * 1000 + sizes.len(), bytes), || {
                     (
                         wit(n, bytes, sizes, Pattern::NONE),
